@@ -387,7 +387,7 @@ def u_float_loader(I):
         if form == 'text':
             return [('text that float() converts is loaded as that number (exponent forms without a decimal point arrive as text)', z3.And(FloatOK(val), z3_of(r) == FloatOf(val)))]
         return [('a number is loaded as itself', z3_of(r) == (val if form == 'float' else z3.ToReal(val)))]
-    check_outcome(I, out, raises={'InputDataError': bad}, returns=posts)
+    check_outcome(I, out, raises={'*': bad}, returns=posts)
     return {'inputs': {}}
 
 
